@@ -23,6 +23,7 @@ import (
 	"strings"
 	"unicode"
 	"unicode/utf16"
+	"unicode/utf8"
 )
 
 type token int
@@ -380,6 +381,14 @@ func (t *tokenizer) ReadValue(tok token) (string, error) {
 
 	if err != nil {
 		return "", err
+	}
+
+	switch tok {
+	case tokenString, tokenLongString, tokenSymbolQuoted:
+		// Raw bytes are copied through as they are; make sure they were UTF-8.
+		if !utf8.ValidString(str) {
+			return "", &SyntaxError{"text contains bytes that are not valid UTF-8", t.pos}
+		}
 	}
 
 	t.unfinished = false
